@@ -48,6 +48,23 @@ def parseFS (j : Json) : Except String FS := do
   return { node := lookupNode entries, dnlink := lookupDn dns, nlink := fun i => (lookupIno inodes i).1,
            data := fun i => (lookupIno inodes i).2 }
 
+/-- `{"i": [names], "n": [{"t": [names], "g": [trees]}]}` -/
+partial def parseGTree (j : Json) : Except String GTree := do
+  let i ← getStrs j "i"
+  let ns ← getArr j "n"
+  let mut nodes : List NTree := []
+  for n in ns do
+    let t ← getStrs n "t"
+    let gs ← getArr n "g"
+    let mut graphs : List GTree := []
+    for g in gs do
+      graphs := (← parseGTree g) :: graphs
+    nodes := NTree.mk t graphs.reverse :: nodes
+  return GTree.mk i nodes.reverse
+
+def sortedUnique (xs : List String) : List String :=
+  (xs.toArray.qsort (· < ·)).toList.eraseDups
+
 def verdictJ : Verdict → Json
   | Verdict.skipped => "skipped" | Verdict.rej1 => "c1" | Verdict.rej2 => "c2"
   | Verdict.rej3 => "c3" | Verdict.pass => "pass"
@@ -124,6 +141,10 @@ def handle : Handler := fun m j =>
           | some (Node.link t) => Json.str ("l" ++ String.ofList t)
           | none => Json.str "none"
       return obj [("r", Json.arr (ps.map show1).toArray)]
+  | "path.walker" => some do
+      let g ← parseGTree (← j.getObjVal? "tree")
+      return obj [("walker", strsJ (sortedUnique (allTensors g))), ("reach", strsJ (sortedUnique (reachGraph g))),
+                  ("shallow", strsJ (sortedUnique (allTensorsShallow g)))]
   | "path.session" => some do
       -- one tensor (loc, offset, length), a sequence of steps:
       --   {"op":"fs","fs":{..}} | {"op":"base","base":".."} | {"op":"release"} | {"op":"call","ep":".."}
